@@ -177,12 +177,9 @@ def generate(repo):
     up = unary_powers(parser)
     if sorted(up) != sorted(UNARY):
         raise ValueError("unary_binding_power does not cover the enum exactly")
-    m = re.search(r"const TERNARY_L_BP: u8 = (\d+);", parser)
-    if not m:
-        raise ValueError("TERNARY_L_BP not found")
-    ternary = int(m.group(1))
+    ternary = const_usize(parser, "TERNARY_L_BP")
     # the uses of TERNARY_L_BP the model relies on
-    if len(re.findall(r"inner_parse_expression\(TERNARY_L_BP \+ 1\)", parser)) != 2:
+    if len(re.findall(r"inner_parse_expression\(\s*TERNARY_L_BP\s*\+\s*1\s*\)", parser)) != 2:
         raise ValueError("list comprehension no longer parses target/condition at TERNARY_L_BP + 1")
     if "if TERNARY_L_BP < min_bp {" not in parser or "if l_bp < min_bp {" not in parser \
             or "if in_l_bp < min_bp {" not in parser:
